@@ -145,6 +145,14 @@ func (n *VNode) SetMaxPacketSize(max int) {
 	n.g.config.MaxPacketSize = max
 }
 
+// SetStreamTimeout changes the deadline the stream listener sets on accepted
+// connections (read per connection; not safe while a handler is running).
+func (n *VNode) SetStreamTimeout(d time.Duration) time.Duration {
+	old := n.sl.streamTimeout
+	n.sl.streamTimeout = d
+	return old
+}
+
 // ReportHeard reports an arrival to the node's failure detector.
 func (n *VNode) ReportHeard(id string) { n.fd.Report(id) }
 
